@@ -45,6 +45,7 @@ SUB = {
     "style": ["rgb(", "color(", "#", ",", ")", "1", "256", "\u00b2", "ff", "on", "not", "link", "bold", " "],
     "ansi": ["\x1b", "[", "]", ";", "m", "1", "256", "\u00b2", "\u0663", "ff", "\\", " "],
     "print_quick": ["[", "]", "/", "rgb(", ",", ")", "\\"],
+    "term": ["[", "]", "color(", "256", ")", "m", "on", " "],
     "color": ["rgb(", "color(", "#", ",", ")", "1", "256", "\u00b2", "\u0663", "ff", " ", "m"],
     "markup": ["[", "]", "/", "\\", "=", "rgb(", ",", ")", "1", "bold", "not", " ", "link", "#"],
     "print": ["[", "]", "/", "rgb(", ",", ")", "1", "\\", "=", "bold"],
@@ -82,18 +83,21 @@ PLAN = {
         ("print_off", "print_quick", 4, 5),
     ],
     "thorough": [
-        ("color", "full", 0, 6),
-        ("render", "full", 0, 6),
-        ("text", "full", 0, 6),
+        ("color", "full", 0, 5),
+        ("color", "color", 6, 7),
+        ("render", "full", 0, 5),
+        ("render", "markup", 6, 6),
+        ("text", "full", 0, 5),
         ("style", "full", 0, 5),
         ("style", "style", 6, 6),
         ("ansi", "full", 0, 5),
-        ("ansi", "ansi", 6, 7),
+        ("ansi", "ansi", 6, 6),
         ("print", "full", 0, 4),
         ("terminal", "full", 0, 3),
         ("print", "print", 5, 5),
         ("print_on", "print", 6, 6),
         ("terminal", "print", 4, 5),
+        ("terminal", "term", 6, 6),
     ],
 }
 # approximate cost per string (microseconds) to size the jobs
@@ -416,7 +420,7 @@ def _jobs(tier: str, seed: int):
             step = max(1, int(target_us / cost))
             for lo in range(0, prefixes, step):
                 jobs.append(("enum", group, alpha_name, length, tail, lo, min(prefixes, lo + step)))
-    n_random = 12000 if tier == "quick" else 300000
+    n_random = 12000 if tier == "quick" else 200000
     per = 1000
     for i in range(n_random // per):
         jobs.append(("random", seed * 1000003 + i, per))
